@@ -65,6 +65,23 @@ simple("C12", "exploration",
        exhaustive=lambda tier: True)
 
 
+simple("C18", "exploration",
+       "exhaustive grid: owner {root, 1000} x group {root, 1000} x all 512 permission modes x {direct path, symlink owned by a non-root user} through "
+       "util.SafeCmdExecution (4096 files), a reduced mode grid through CmdSensor and the three CmdFan commands, ownership/mode flips between consecutive "
+       "executions in both directions, and the configuration-file rule over uid x gid x modes x {no cmd entry, cmd sensor, cmd fan}; each file is a script "
+       "appending to a marker file, so execution is observed from outside; every case is distinct and non-trivial (it decides permit/refuse)",
+       ["runs as root (needed to construct ownership cases)", "check-to-exec TOCTOU window is not claimed by the statement"],
+       batches=(8, 8), exhaustive=lambda tier: True)
+
+simple("C19", "fault_enumeration",
+       "failure-mode enumeration (exit != 0 with/without output, killed by signal, not executable, bad exec format, missing interpreter, file removed/re-created "
+       "concurrently, sleeping beyond the deadline directly / as child / ignoring SIGTERM, grandchild holding stdout, empty / non-numeric / 50 MB output) x timeouts "
+       "{0.2, 1} s quick, {0.2, 0.5, 1, 2} s thorough through util.SafeCmdExecution, plus the CmdSensor and CmdFan wrappers (2 s); distinct = (mode, entry point, timeout)",
+       ["wall-clock oracle with grey zone: elapsed <= timeout+1.0 s passes, >= timeout+2.5 s is a violation (offending scripts overrun by 4 s), in between is retried and then inconclusive",
+        "at most 4 commands in flight per batch"],
+       batches=(4, 4), timeout=(900, 3000))
+
+
 def setup():
     """Warm the Go build cache: build the harness (plain and -race) and the daemon once."""
     t0 = time.time()
